@@ -32,9 +32,6 @@ const MAX_RUN: Duration = Duration::from_millis(900);
 const TAG_ANCHOR: &str = "c10-anchor-unmentioned";
 /// known-finding class: `AddPre i` after a compute that published a score for i (get_trust then answers 0.9)
 const TAG_ADDPRE: &str = "c10-addpre-overwrite";
-/// known-finding class of C11: the loop ran fewer than 4 rounds and the Sybil share is below 1.05e-3
-/// (105 * n > 100000 * |S|, n = node-set size); the bound |S|/(7n) may legitimately fail there
-const TAG_EARLY_EXIT: &str = "c11-early-exit";
 /// a compute this slow returned through the 2 s timeout inside `compute_global_trust`
 const TIMEOUT_PATH: Duration = Duration::from_millis(1500);
 const WHAT_TIMEOUT: &str = "compute_global_trust returned only through its 2 s timeout (self-deadlock on last_update); the returned map is the whole cache";
@@ -206,7 +203,7 @@ fn coq_tbl(vals: &BTreeSet<u64>) -> String { coq_list(vals.iter().map(|x| format
 // shadow state: counters for the ln table, node set, and the replica of the REPAIRED iteration.
 // The replica is used ONLY to obtain the per-round L1 differences (ambiguity of the convergence
 // test) and the number of rounds for the input distribution; its scores are compared with nothing.
-// Its constants (0.4, 1e-4, 100/5, 500/2, 50) are the present source's; if the source changes the
+// Its constants (0.4, 1e-4, min 4 rounds, 100/5, 500/2, 50) are the present source's; if the source changes the
 // Coq model (generated constants) still decides, only the ambiguity filter becomes less precise.
 // ------------------------------------------------------------------------------------------
 
@@ -293,7 +290,7 @@ impl Shadow {
             for i in &nodes { diff += (tv.get(i).unwrap_or(&0.0) - nt.get(i).unwrap_or(&0.0)).abs(); }
             diffs.push(diff);
             tv = nt;
-            if diff < 0.0001 { break; }
+            if diff < 0.0001 && iteration + 1 >= 4 { break; }
             if n > 100 && iteration > 5 { break; }
             if n > 500 && iteration > 2 { break; }
         }
@@ -1100,9 +1097,10 @@ fn ledger_case() -> C11 {
     C11 { pre: vec![1], ops, sybils: vec![12], a: 1, h: 10, s: 1, pattern: "ledger".into(), stats_mode: "equal:[UCorrect]".into() }
 }
 
-/// The known-finding class `c11-early-exit`, always the LAST case (own shard): anchor 2, Sybil 1 rating itself,
-/// 4998 honest ids 3..5000 known only through a `false` report of the anchor (a 0.0 entry: no edge, but the id is
-/// in the node set); nobody has statistics.  The repaired loop converges after 2 rounds with mass(S) = 0.36/5000.
+/// The scenario of the repaired defect F11b (convergence exit before the fourth round), always the LAST case (own
+/// shard): anchor 2, Sybil 1 rating itself, 4998 honest ids 3..5000 known only through a `false` report of the
+/// anchor (a 0.0 entry: no edge, but the id is in the node set); nobody has statistics.  Before the repair the loop
+/// left after 2 rounds with mass(S) = 0.36/5000 > 1/(7*5000); now it runs 4 rounds: 0.1296/5000.  Ordinary, untagged.
 fn early_exit_case() -> C11 {
     let mut ops = vec![Op::UpdLocal { f: 1, t: 1, ok: true, via: false }];
     for h in 3..=5000u32 { ops.push(Op::UpdLocal { f: 2, t: h, ok: false, via: h % 2 == 0 }); }
@@ -1198,8 +1196,7 @@ fn mode_c11(args: &Args, rt: &tokio::runtime::Runtime) {
     out.sum.rule = "C11: a anchors (1-5, sometimes 50), h honest nodes (a share of them silent), s Sybils (1-30, sometimes 100-300; thorough up to 1000) \
 forming a closed set (clique/star/chain/ring/self-loops/random, optionally rating honest nodes), equal statistics (none, or one identical update \
 sequence for every id), n = a+h+s hitting 12, 99-102, 499-502 and random sizes; operations shuffled, no compute inside, ONE final compute. \
-Case 0 is the ledger scenario; the last case is the known-finding class c11-early-exit (n = 5000, one Sybil, 2 rounds); a case is tagged \
-c11-early-exit exactly when the loop ran fewer than 4 rounds and 105 n > 100000 |S|. Non-trivial = at least one positive edge or one statistics update and a non-empty returned map; distinct = different \
+Case 0 is the ledger scenario; the last case is the F11b scenario (n = 5000, one self-rating Sybil, everybody else silent: the loop must run 4 rounds). Non-trivial = at least one positive edge or one statistics update and a non-empty returned map; distinct = different \
 (anchors, operations, S) text".into();
     // plan of (n, a, s)
     let mut plan: Vec<(u32, u32, u32)> = vec![];
@@ -1264,9 +1261,9 @@ c11-early-exit exactly when the loop ran fewer than 4 rounds and 105 n > 100000 
         let term = format!("({}, {}, {}, 1%float, {}, {})", coq_tbl(&facts.tbl), coq_list(c.pre.iter().map(|i| i.to_string())),
             coq_list(c.ops.iter().map(coq_op)), coq_list(c.sybils.iter().map(|i| i.to_string())), coq_vec(&m));
         let rounds = facts.rounds.last().copied().unwrap_or(0);
-        let early_exit = rounds < 4 && 105 * facts.n_final as u64 > 100_000 * c.sybils.len() as u64;
-        let tags: Vec<&str> = if early_exit { vec![TAG_EARLY_EXIT] } else { vec![] };
-        if early_exit { out.sum.count(&format!("tag:{}", TAG_EARLY_EXIT)); }
+        // every exit of the repaired loop is taken after at least 4 rounds (C11_at_least_four_rounds)
+        if rounds < 4 { out.sum.count("rounds<4 (replica)"); }
+        let tags: Vec<&str> = vec![];
         let desc = json!({"kind": c.pattern, "pre": c.pre, "ops": c.ops.iter().map(json_op).collect::<Vec<_>>(), "S": c.sybils, "tags": tags,
             "n": n, "a": c.a, "h": c.h, "s": c.s, "node_set": facts.n_final, "stats": c.stats_mode, "rounds": rounds,
             "mass_S": mass, "bound_s_over_7n": c.s as f64 / (7.0 * n as f64), "min_anchor_score": min_anchor, "total": total,
